@@ -93,6 +93,7 @@ type RtD struct {
 	Gov  int   `json:"gov"`
 	WL   []int `json:"wl,omitempty"`
 	HasWL bool `json:"has_wl,omitempty"`
+	KM   int   `json:"km,omitempty"` // key manager runtime referred to (0 = none)
 }
 
 type Op struct {
@@ -166,7 +167,7 @@ func idx(pk signature.PublicKey) int {
 	return 777777
 }
 
-const nRts = 3 // runtime pool 1..3; 3 carries the key-manager namespace flag
+const nRts = 4 // runtime pool 1..4; 3 and 4 carry the key-manager namespace flag; 5 is never registered
 
 func rtID(i int) common.Namespace {
 	var flags common.NamespaceFlag
@@ -223,12 +224,19 @@ func buildRuntime(d *RtD) *registry.Runtime {
 	} else {
 		rt.AdmissionPolicy = registry.RuntimeAdmissionPolicy{AnyNode: &registry.AnyNodeRuntimeAdmissionPolicy{}}
 	}
+	if d.KM != 0 {
+		km := rtID(d.KM)
+		rt.KeyManager = &km
+	}
 	rt.Genesis.StateRoot.Empty()
 	return rt
 }
 
 func rtDescOf(rt *registry.Runtime) RtD {
 	d := RtD{ID: rtIdx(rt.ID), Ent: idx(rt.EntityID), Kind: int(rt.Kind), Gov: int(rt.GovernanceModel)}
+	if rt.KeyManager != nil {
+		d.KM = rtIdx(*rt.KeyManager)
+	}
 	if wl := rt.AdmissionPolicy.EntityWhitelist; wl != nil {
 		d.HasWL = true
 		d.WL = []int{}
@@ -731,7 +739,7 @@ func (d *dump) coq() string {
 		if d.RtSusp[r] {
 			st = 2
 		}
-		row := []int{r, st, rt.Ent, rt.Kind, rt.Gov}
+		row := []int{r, st, rt.Ent, rt.Kind, rt.Gov, rt.KM}
 		if rt.HasWL {
 			row = append(append(row, 1), rt.WL...)
 		} else {
@@ -1049,6 +1057,12 @@ func authorityCheck(o Op, code string, before, after *dump) string {
 		if b != nil && (b.Kind != a.Kind || (b.Gov != a.Gov && !(b.Gov == 1 && a.Gov == 2))) {
 			return fmt.Sprintf("runtime %d changed its kind or made a forbidden governance transition", r)
 		}
+		if b != nil && b.KM != 0 && a.KM != b.KM {
+			return fmt.Sprintf("runtime %d changed or dropped its key manager reference %d -> %d", r, b.KM, a.KM)
+		}
+		if a.KM != 0 && (before.Rts[a.KM] == nil || before.Rts[a.KM].Kind != 2 || a.Kind != 1) {
+			return fmt.Sprintf("runtime %d accepted with key manager reference %d which is not a registered key manager runtime", r, a.KM)
+		}
 		if before.RtSusp[r] != after.RtSusp[r] {
 			return fmt.Sprintf("suspension state of runtime %d changed by its re-registration", r)
 		}
@@ -1150,7 +1164,11 @@ func coqOp(o Op) string {
 		if o.Runtime.HasWL {
 			wl = "(Some " + ints(o.Runtime.WL) + ")"
 		}
-		return fmt.Sprintf("TRegRuntime %d (mkRt %d %d %d %d %s)", o.Caller, o.Runtime.ID, o.Runtime.Ent, o.Runtime.Kind, o.Runtime.Gov, wl)
+		km := "None"
+		if o.Runtime.KM != 0 {
+			km = fmt.Sprintf("(Some %d)", o.Runtime.KM)
+		}
+		return fmt.Sprintf("TRegRuntime %d (mkRt %d %d %d %d %s %s)", o.Caller, o.Runtime.ID, o.Runtime.Ent, o.Runtime.Kind, o.Runtime.Gov, wl, km)
 	case "suspendrt":
 		return fmt.Sprintf("LSuspendRt %d", o.Rt)
 	case "unfreeze":
@@ -1421,6 +1439,9 @@ func genTx(r *prng.R) Case {
 				d.Gov = pick(r, []int{0, 4})
 			}
 			randWL(&d)
+			if d.Kind == 1 && r.Chance(25) {
+				d.KM = pick(r, []int{3, 3, 4, 4, 1, 5, id})
+			}
 			caller = acctOf(&d)
 		} else {
 			d = *cur
@@ -1436,8 +1457,10 @@ func genTx(r *prng.R) Case {
 				d.Kind = 3 - d.Kind
 			case x < 52:
 				d.Gov = 3
-			case x < 80:
+			case x < 72:
 				randWL(&d)
+			case x < 84:
+				d.KM = pick(r, []int{0, 3, 3, 4, 4, 1, 5})
 			}
 			caller = acctOf(cur)
 		}
@@ -1452,7 +1475,8 @@ func genTx(r *prng.R) Case {
 		if caller < 0 {
 			caller = 2 * d.Ent
 		}
-		ok := (d.Kind == 1 && id < 3 || d.Kind == 2 && id >= 3) && (d.Gov == 1 || d.Gov == 2 && d.Kind == 1)
+		ok := (d.Kind == 1 && id < 3 || d.Kind == 2 && id >= 3) && (d.Gov == 1 || d.Gov == 2 && d.Kind == 1) &&
+			(d.KM == 0 || d.Kind == 1 && d.KM >= 3 && shRts[d.KM] != nil) && (cur == nil || cur.KM == 0 || cur.KM == d.KM)
 		if cur != nil {
 			ok = ok && cur.Kind == d.Kind && (cur.Gov == d.Gov || cur.Gov == 1 && d.Gov == 2) && caller == acctOf(cur)
 		} else {
@@ -1464,7 +1488,7 @@ func genTx(r *prng.R) Case {
 		}
 		return Op{K: "regrt", Caller: caller, Runtime: &d}
 	}
-	for id := 1; id <= nRts; id++ {
+	for _, id := range []int{3, 4, 1, 2} {
 		if r.Chance(88) {
 			c.Ops = append(c.Ops, regRt(id))
 		}
@@ -1481,7 +1505,7 @@ func genTx(r *prng.R) Case {
 		case x < 75:
 			d.Roles, d.Rts = 2, []int{r.Range(1, 2)}
 		case x < 83:
-			d.Roles, d.Rts = 4, []int{3}
+			d.Roles, d.Rts = 4, []int{r.Range(3, 4)}
 		case x < 86:
 			d.Roles, d.Rts = 1, []int{3}
 		case x < 89:
@@ -1495,7 +1519,7 @@ func genTx(r *prng.R) Case {
 		case x < 98:
 			d.Roles, d.Rts = 5, []int{1, 3}
 		default:
-			d.Roles, d.Rts = 1, []int{4}
+			d.Roles, d.Rts = 1, []int{5}
 		}
 	}
 	liveID := func() int {
@@ -1534,7 +1558,11 @@ func genTx(r *prng.R) Case {
 		case x < 28:
 			c.Ops = append(c.Ops, Op{K: "suspendrt", Rt: r.Range(1, nRts)})
 		case x < 31:
-			c.Ops = append(c.Ops, Op{K: "freeze", ID: liveID(), Epoch: sh.epoch + uint64(r.Intn(4))})
+			fid := liveID()
+			c.Ops = append(c.Ops, Op{K: "freeze", ID: fid, Epoch: sh.epoch + uint64(r.Intn(3))})
+			if nd := sh.nodes[fid]; nd != nil && r.Chance(50) {
+				c.Ops = append(c.Ops, Op{K: "unfreeze", Txs: nd.Ent, ID: fid})
+			}
 		case x < 35:
 			id := liveID()
 			t := 1 + (id-nEnts-1)%nEnts
@@ -1766,6 +1794,15 @@ func fixedCases() []Case {
 		// entity -> runtime governance; afterwards only the runtime itself may update; back is forbidden
 		{Layer: "tx", Ops: []Op{ent, rtop(2, 1, 1, 1, 1), rtop(2, 1, 1, 1, 2), rtop(2, 1, 1, 1, 2), rtop(3, 1, 2, 1, 2), rtop(3, 1, 2, 1, 1),
 			rtop(7, 3, 1, 2, 2), rtop(2, 3, 1, 2, 1), rtop(2, 2, 1, 1, 3)}},
+		// key manager references: must name a registered key manager runtime; once set, neither removed nor changed
+		{Layer: "tx", Ops: []Op{ent, {K: "regrt", Caller: 2, Runtime: &RtD{ID: 1, Ent: 1, Kind: 1, Gov: 1, KM: 3}}, rtop(2, 3, 1, 2, 1),
+			{K: "regrt", Caller: 2, Runtime: &RtD{ID: 1, Ent: 1, Kind: 1, Gov: 1, KM: 3}}, rtop(2, 1, 1, 1, 1),
+			{K: "regrt", Caller: 2, Runtime: &RtD{ID: 1, Ent: 1, Kind: 1, Gov: 1, KM: 2}}, {K: "regrt", Caller: 2, Runtime: &RtD{ID: 1, Ent: 1, Kind: 1, Gov: 1, KM: 1}},
+			rtop(2, 2, 1, 1, 1), {K: "regrt", Caller: 2, Runtime: &RtD{ID: 2, Ent: 1, Kind: 1, Gov: 1, KM: 3}}, {K: "regrt", Caller: 2, Runtime: &RtD{ID: 3, Ent: 1, Kind: 2, Gov: 1, KM: 3}},
+			rtop(2, 4, 1, 2, 1), {K: "regrt", Caller: 2, Runtime: &RtD{ID: 1, Ent: 1, Kind: 1, Gov: 1, KM: 4}}, {K: "regrt", Caller: 2, Runtime: &RtD{ID: 2, Ent: 1, Kind: 1, Gov: 1, KM: 4}}}},
+		// unfreezing exactly one epoch before / at the freeze end
+		{Layer: "tx", Ops: []Op{ent, reg(9, 10, 11, 4), {K: "epoch", Epoch: 2}, {K: "freeze", ID: 4, Epoch: 3}, {K: "unfreeze", Txs: 1, ID: 4},
+			{K: "epoch", Epoch: 3}, {K: "unfreeze", Txs: 1, ID: 4}}},
 		// suspension; a compute node registering for the runtime resumes it; dropping a runtime while active is refused
 		{Layer: "tx", Ops: []Op{ent, rtop(2, 1, 1, 1, 1), rtop(2, 2, 1, 1, 1), {K: "suspendrt", Rt: 1}, rtop(2, 1, 1, 1, 1), cnode([]int{1, 2}, 3),
 			cnode([]int{2}, 4), {K: "epoch", Epoch: 4}, cnode([]int{2}, 6), {K: "epoch", Epoch: 12}}},
